@@ -267,12 +267,22 @@ def all_keys():
     return re.findall(r'"([^"]+)"', m.group(1))
 
 
-GEN_INVS = ["WellFormed", "WrongTagRejected", "Emit"]  # TMP
+GEN_INVS = ["WellFormed", "ReadInvertsRender", "WrongTagRejected", "Emit"]
 
 
-def run_gen(wd, name, keys, scope, max_mut, mut_depth, res, errs):
+def defects():
+    """the open findings the mechanism model mirrors / excuses: C16-F1 -> "F1" """
+    return {f["id"].split("-")[-1] for f in core.open_findings(PROP)}
+
+
+def tla_set(xs):
+    return core.Raw("{" + ", ".join('"%s"' % x for x in sorted(xs)) + "}")
+
+
+def run_gen(wd, name, keys, scope, max_mut, mut_depth, res, errs, excused=None):
     try:
-        c = core.cfg(constants={"Scope": scope, "Keys": set(keys), "MaxMut": max_mut, "MutDepth": mut_depth},
+        c = core.cfg(constants={"Scope": scope, "Defects": tla_set(defects()), "Excused": tla_set(defects() if excused is None else excused),
+                                "Keys": set(keys), "MaxMut": max_mut, "MutDepth": mut_depth},
                      invariants=GEN_INVS, view="View")
         # -coverage makes TLC pathologically slow on the recursive operators of this module: off; the
         # per-operator statistics are computed from the DOC lines instead
@@ -305,6 +315,22 @@ def generate(wd, tier, out):
             t.join()
     if errs:
         raise errs[0]
+    # the excuses are keyed on open findings: without them the model must still exhibit the finding
+    probes = {"F1": ["AttrMap"], "F3": ["BodyValue"]}
+    pres, perr = {}, []
+    th = [threading.Thread(target=run_gen, args=(wd, "probe" + f, probes[f], k["scope"], 0, 0, pres, perr, set()))
+          for f in sorted(defects()) if f in probes]
+    for t in th:
+        t.start()
+    for t in th:
+        t.join()
+    if perr:
+        raise perr[0]
+    for n, r in pres.items():
+        if r.ok:
+            out.notes.append("model: finding %s is excused in ReadInvertsRender but the model no longer exhibits it" % n[5:])
+        else:
+            out.add(**{"model_exhibits_" + n[5:]: "TLC: invariant %s violated without the excuse" % r.violated})
     docs, schema = {}, None
     stats = dict(states=0, generated=0, wall=0.0)
     for n, ks, mm in jobs:
@@ -489,8 +515,7 @@ def make_rows(docs, schema, cases, results, tier):
             # the third source of events (informative): MessagePack of the parsed value
             if row["p"] and (acc(r.get("mp")) != row["m"] or (row["m"] and ids.id(r["mp"]["v"]) != row["vm"])):
                 stats["msgpack_reader_differs_from_bridge"] += 1
-    stats["_unfaithful_prints"] = unfaithful_prints
-    return rows, info, drift, stats
+    return rows, info, drift, stats, unfaithful_prints
 
 
 def doc_row(r, ids, isx, vx):
@@ -515,7 +540,7 @@ def evaluate(wd, rows, tier):
             os.makedirs(d, exist_ok=True)
             tp = os.path.join(d, "table.ndjson")
             core.write_ndjson(tp, chunks[i])
-            c = core.cfg(constants={"Scope": 0}, invariants=["TypeOK"], postcondition="Report")
+            c = core.cfg(constants={"Scope": 0, "Defects": tla_set([])}, invariants=["TypeOK"], postcondition="Report")
             res[i] = core.run_tlc("MC_FormDoc", c, d, workers=1, depth_first=True, env={"TABLE": tp}, timeout=1500, xmx="6g",
                                   coverage=True)
         except Exception as ex:  # noqa
@@ -583,7 +608,14 @@ def run(tier, out):
     core.log("[C16] TLC generated %d distinct (type, document) pairs from %d states in %.1fs" % (len(docs), gst["states"], gst["wall"]))
     cases = build_cases(docs, schema, tier)
     results = harness(wd, [strip(c) for c in cases], "cases")
-    rows, info, drift, st = make_rows(docs, schema, cases, results, tier)
+    rows, info, drift, st, unfaithful = make_rows(docs, schema, cases, results, tier)
+    if unfaithful:
+        # parse(print(x)) != as_value(x): a printer / parser matter (property C09), recorded but not demanded here
+        seen = {}
+        for u in unfaithful:
+            seen.setdefault(u["ty"], u)
+        out.notes.append("PRINT-NOT-FAITHFUL (C09 matter, no C16 law demands it): %d printer outputs do not parse to as_value(x); one per type: %s" % (
+            len(unfaithful), json.dumps([{"ty": u["ty"], "x": u["x"], "text": u["text"]} for u in seen.values()])[:1500]))
     failed, tot, cov = evaluate(wd, rows, tier)
     core.log("[C16] %d rows (%d instances, %d documents; %d accepted by both paths, %d rejected by both); laws broken on %d rows; drift %d" % (
         tot["rows"], tot["inst"], tot["doc"], tot["both_accept"], tot["both_reject"], len(failed), len(drift)))
@@ -652,15 +684,18 @@ def report(out, tier, docs, rows, info, drift, st, failed, tot, cov, gst, wd):
             model_drift=len(drift), model_drift_kinds={"%s [%s]" % k: n for k, n in dk.most_common(12)},
             harness_stats=dict(st),
             checker_cmd="tlc Gen_FormDoc (INVARIANTS %s) + h_core form + tlc MC_FormDoc (laws of FormDoc.tla section 7)" % " ".join(GEN_INVS))
-    shown = 0
+    shown, types_shown = 0, set()
     for inf, row in zip(info, rows):
-        if row["kind"] == "doc" and inf["doc"]["ops"] and row["p"] and shown < 4 and (shown % 2 == 0) == row["d"]:
-            out.sample({"type": inf["case"]["ty"], "mutation": inf["doc"]["ops"], "text": inf["case"]["text"], "direct_accepts": row["d"],
+        ty = inf["case"]["ty"]
+        if row["kind"] == "doc" and inf["doc"]["ops"] and row["p"] and shown < 4 and (shown % 2 == 0) == row["d"] and ty not in types_shown \
+                and row["d"] == row["m"]:
+            out.sample({"type": ty, "mutation": inf["doc"]["ops"], "text": inf["case"]["text"], "direct_accepts": row["d"],
                         "via_model_accepts": row["m"], "same_value": row["vd"] == row["vm"]})
             shown += 1
+            types_shown.add(ty)
     for inf, row in zip(info, rows):
-        if row["kind"] == "inst":
-            out.sample({"type": inf["case"]["ty"], "instance": inf["case"]["x"], "row": row})
+        if row["kind"] == "inst" and inf["case"]["ty"] == "HdrBoth":
+            out.sample({"type": inf["case"]["ty"], "instance": inf["case"]["x"], "as_value": inf["obs"]["asv"], "row": row})
             break
     out.assumptions += ["serde_json renderings of the typed values are injective (used as value identity)",
                         "the Recon parser's Value output for a text is the 'model' of that text (C09 covers the parser itself)",
